@@ -5,7 +5,7 @@
    Only statements; every proof is `exact <lemma>`. *)
 From Coq Require Import List ZArith QArith Qcanon Bool Arith.
 From Dimod Require Import Base.Util Model.Poly Model.Comb Gen.Gen_Gates Model.Gates
-  Proofs.GatesFacts Props.Comb.
+  Proofs.GatesFacts Props.Comb Model.Knap Proofs.KnapFacts Model.MultCircuit Proofs.MultFacts.
 Import ListNotations.
 
 (* energy 0 on exactly the rows of the truth table, >= 1 on every other row (strength 1) *)
@@ -87,6 +87,120 @@ Theorem C17_mwis_independent :
     energy (mwis_poly s edges weights) (sel_sample sel) = (- selected_weight sel weights)%Qc.
 Proof. exact mwis_independent. Qed.
 Print Assumptions C17_mwis_independent.
+
+(* ---------- knapsack / multi-knapsack / bin packing: any number of items and bins, any
+   (rational-valued) assignment; the variable numbering is that of Model/Knap.v ---------- *)
+Theorem C17_knapsack_objective :
+  forall values weights capacity (x : sample),
+    energy (q_obj (knapsack_model values weights capacity)) x = (- ks_value values (length values) x)%Qc.
+Proof. exact knapsack_objective. Qed.
+Print Assumptions C17_knapsack_objective.
+
+Theorem C17_knapsack_feasible :
+  forall values weights capacity (x : sample),
+    feasibleb (knapsack_model values weights capacity) x = true
+    <-> (ks_weight weights (length values) x <= capacity)%Qc.
+Proof. exact knapsack_feasible. Qed.
+Print Assumptions C17_knapsack_feasible.
+
+Theorem C17_multi_knapsack_objective :
+  forall values weights capacities (x : sample),
+    energy (q_obj (mk_model values weights capacities)) x
+    = (- mk_value values (length values) (length capacities) x)%Qc.
+Proof. exact mk_objective. Qed.
+Print Assumptions C17_multi_knapsack_objective.
+
+(* every item in at most one knapsack, every knapsack within its capacity *)
+Theorem C17_multi_knapsack_feasible :
+  forall values weights capacities (x : sample),
+    let n := length values in let b := length capacities in
+    feasibleb (mk_model values weights capacities) x = true
+    <-> (forall i, (i < n)%nat -> (mk_count b x i <= 1)%Qc) /\
+        (forall j, (j < b)%nat -> (mk_load weights n b x j <= wt capacities j)%Qc).
+Proof. exact mk_feasible. Qed.
+Print Assumptions C17_multi_knapsack_feasible.
+
+Theorem C17_bin_packing_objective :
+  forall weights capacity (x : sample),
+    energy (q_obj (bp_model weights capacity)) x = bp_open_bins (length weights) x.
+Proof. exact bp_objective. Qed.
+Print Assumptions C17_bin_packing_objective.
+
+(* every item in exactly one bin; the load of a bin is within the capacity if it is open and 0 otherwise *)
+Theorem C17_bin_packing_feasible :
+  forall weights capacity (x : sample),
+    let n := length weights in
+    feasibleb (bp_model weights capacity) x = true
+    <-> (forall i, (i < n)%nat -> bp_count n x i = 1%Qc) /\
+        (forall j, (j < n)%nat -> (bp_load weights n x j <= capacity * x (bp_y j))%Qc).
+Proof. exact bp_feasible. Qed.
+Print Assumptions C17_bin_packing_feasible.
+
+(* on 0/1 assignments "the row sums to 1" is "exactly one entry is 1" *)
+Theorem C17_exactly_one :
+  forall n (f : nat -> bool),
+    range_sum n (fun i => if f i then 1%Qc else 0%Qc) = 1%Qc <-> count_ones n f = 1%nat.
+Proof. exact exactly_one. Qed.
+Print Assumptions C17_exactly_one.
+
+(* ---------- multiplication circuit, wired as the generator wires it (Model/MultCircuit.v) ---------- *)
+(* any list of gate instances (so every size n x m): the energy is never negative, it is 0 exactly when
+   every gate's truth table holds and at least 1 otherwise *)
+Theorem C17_circuit_energy_gap :
+  forall gs (a : wassign),
+    (0 <= circuit_energy gs a)%Z /\
+    (circuit_energy gs a = 0%Z <-> all_sat gs a = true) /\
+    (all_sat gs a = false -> (1 <= circuit_energy gs a)%Z).
+Proof. exact circuit_energy_gap. Qed.
+Print Assumptions C17_circuit_energy_gap.
+
+(* the BQM returned (sum of the gate BQMs over numbered wires) has that energy *)
+Theorem C17_circuit_poly_energy :
+  forall (idx : wire -> nat) gs (a : wassign) (smp : sample),
+    (forall w, smp (idx w) = b2qc (a w)) ->
+    energy (circuit_poly idx gs) smp = z2q (circuit_energy gs a).
+Proof. exact circuit_poly_energy. Qed.
+Print Assumptions C17_circuit_poly_energy.
+
+(* any topologically ordered wiring: an assignment satisfying every gate is the forward
+   simulation of its primary inputs *)
+Theorem C17_sim_agree :
+  forall gs (env a : wassign) known,
+    all_sat gs a = true -> topo_ok known gs = true ->
+    (forall w, In w known -> env w = a w) ->
+    forall w, In w (flat_map inst_outputs gs ++ known) -> sim gs env w = a w.
+Proof. exact sim_agree. Qed.
+Print Assumptions C17_sim_agree.
+
+(* arithmetic correctness for any size whose (finite) computed check succeeds ... *)
+Theorem C17_mult_arith :
+  forall n m, mult_ok_size n m = true ->
+    forall a : wassign, all_sat (circuit n m) a = true ->
+      bits_val (prod_bits n m a) = (bits_val (a_bits n a) * bits_val (b_bits m a))%Z.
+Proof. exact mult_arith. Qed.
+Print Assumptions C17_mult_arith.
+
+(* ... which it does for 2 <= n, m <= 6.  PARTIAL: no induction over the adder array for all sizes. *)
+Theorem C17_multiplication_circuit_partial :
+  forall n m, (2 <= n <= 6)%nat -> (2 <= m <= 6)%nat ->
+    (forall a : wassign, (0 <= circuit_energy (circuit n m) a)%Z) /\
+    (forall a : wassign, circuit_energy (circuit n m) a = 0%Z ->
+       bits_val (prod_bits n m a) = (bits_val (a_bits n a) * bits_val (b_bits m a))%Z) /\
+    (forall a : wassign,
+       bits_val (prod_bits n m a) <> (bits_val (a_bits n a) * bits_val (b_bits m a))%Z ->
+       (1 <= circuit_energy (circuit n m) a)%Z) /\
+    (forall abits bbits, length abits = n -> length bbits = m ->
+       exists a : wassign, a_bits n a = abits /\ b_bits m a = bbits /\ circuit_energy (circuit n m) a = 0%Z).
+Proof. exact multiplication_circuit_small. Qed.
+Print Assumptions C17_multiplication_circuit_partial.
+
+(* the generator AS IT IS with a 1-bit argument (open finding): zero energy, a = b = 0, product bits = 4 *)
+Theorem C17_multiplication_circuit_one_bit_refuted :
+  circuit_energy (circuit 3 1) witness_3x1 = 0%Z /\
+  bits_val (a_bits 3 witness_3x1) = 0%Z /\ bits_val (b_bits 1 witness_3x1) = 0%Z /\
+  bits_val (prod_bits 3 1 witness_3x1) = 4%Z.
+Proof. exact multiplication_circuit_one_bit_refuted. Qed.
+Print Assumptions C17_multiplication_circuit_one_bit_refuted.
 
 Example C17_ex_fulladder : fulladder_energy [true; true; false; false; true] = 0%Z /\
                            fulladder_energy [true; true; false; true; true] = 1%Z.
